@@ -3,8 +3,10 @@ package props
 import (
 	"fmt"
 	"github.com/go-kid/ioc/app"
+	"github.com/go-kid/ioc/configure/binder"
 	"math"
 	"strings"
+	"verifharness/mon"
 
 	"github.com/go-kid/ioc/configure"
 	"github.com/go-kid/ioc/util/framework_helper"
@@ -94,7 +96,87 @@ func contractViolation(seq []part) string {
 	return ""
 }
 
+// reinitLoaders: a Configure is initialised, further loaders are added (some sorting in front of the loaded ones), and
+// it is initialised again: in the second pass every loader - old and new - is asked exactly once, in contract order.
+func (p c12) reinitLoaders(c *core.Ctx) {
+	cfg := configure.NewConfigure()
+	cfg.SetBinder(binder.NewViperBinder("yaml"))
+	log := mon.NewLifecycle()
+	class := map[string]int{} // 0 priority-ordered, 1 ordered, 2 unordered
+	ord := map[string]int{}
+	mk := func(i int) configure.Loader {
+		cl := c.Rng.Intn(4)
+		nm := fmt.Sprintf("ld%d", i)
+		o := c.Rng.Intn(7) - 3
+		class[nm], ord[nm] = map[int]int{0: 2, 1: 1, 2: 0, 3: 2}[cl], o
+		return world.NewLoader(cl, nm, o, []byte(fmt.Sprintf("k%d: %d\n", i, i)), log).(configure.Loader)
+	}
+	n1, n2 := 1+c.Rng.Intn(3), 1+c.Rng.Intn(3)
+	var added []string
+	for i := 0; i < n1; i++ {
+		cfg.AddLoaders(mk(i))
+		added = append(added, fmt.Sprintf("ld%d", i))
+	}
+	var err error
+	guard := func(f func() error) {
+		defer func() {
+			if r := recover(); r != nil {
+				err = fmt.Errorf("panic: %v", r)
+			}
+		}()
+		err = f()
+	}
+	guard(cfg.Initialize)
+	c.AddEvaluations(1)
+	if err != nil {
+		c.Fail("", fmt.Sprintf("Initialize failed: %v", err), nil)
+		return
+	}
+	mark := log.Len()
+	for i := n1; i < n1+n2; i++ {
+		cfg.AddLoaders(mk(i))
+		added = append(added, fmt.Sprintf("ld%d", i))
+	}
+	guard(cfg.Initialize)
+	if err != nil {
+		c.Fail("", fmt.Sprintf("second Initialize failed: %v", err), nil)
+		return
+	}
+	var seq []string
+	seen := map[string]int{}
+	for _, e := range log.Events()[mark:] {
+		if e.Kind == "load" {
+			seq = append(seq, fmt.Sprintf("%s(class %d, order %d)", e.Who, class[e.Who], ord[e.Who]))
+			seen[e.Who]++
+		}
+	}
+	detail := map[string]any{"second_pass": seq, "loaders_before_the_first_initialize": n1, "added_afterwards": n2}
+	for _, nm := range added {
+		if seen[nm] != 1 {
+			c.Fail("", fmt.Sprintf("second Initialize (after %d loader(s) were added to %d loaded ones): loader %s was asked %d time(s): %v", n2, n1, nm, seen[nm], seq), detail)
+			return
+		}
+	}
+	prev := ""
+	for _, e := range log.Events()[mark:] {
+		if e.Kind != "load" {
+			continue
+		}
+		if prev != "" && (class[prev] > class[e.Who] || (class[prev] == class[e.Who] && class[prev] < 2 && ord[prev] > ord[e.Who])) {
+			c.Fail("", fmt.Sprintf("second Initialize: loader %s was asked before %s: %v", prev, e.Who, seq), detail)
+			return
+		}
+		prev = e.Who
+	}
+	c.Count("reinitialised_configures", 1)
+	c.Nontrivial(fmt.Sprint("reinitloaders|", seq))
+}
+
 func (p c12) Run(c *core.Ctx) {
+	if c.Index >= p.directCount(c.Tier) && c.Index%10 == 3 {
+		p.reinitLoaders(c)
+		return
+	}
 	if c.Index < p.directCount(c.Tier) {
 		p.direct(c)
 		return
